@@ -468,8 +468,10 @@ func (g *gen) mutantBlock(parent *node, kind string) (*node, bool) {
 		if !ok {
 			return nil, false
 		}
-		ghost := g.mkTx([]outRef{o}, 1, false, h+1000) // never included anywhere (its time range makes it unlike any generated transaction)
-		txs = append(txs, g.mkTx([]outRef{{cl.Out{Tx: ghost, Pos: 0}, 0, h}}, 1, false, 0))
+		// the ghost is never included anywhere; no other transaction of this block spends o, because an output id
+		// commits only to the spent inputs and the output itself: a twin of the ghost would create the same output
+		ghost := g.mkTx([]outRef{o}, 1, false, 0)
+		txs = []*types.Tx{g.mkTx([]outRef{{cl.Out{Tx: ghost, Pos: 0}, 0, h}}, 1, false, 0)}
 	case "spend-spent":
 		var cand []outRef
 		for _, o := range parent.st.spent {
@@ -1111,7 +1113,7 @@ func oracle(r *Result) []string {
 	ancestorOrSelfBroken := func(l int) bool { return l >= 0 && l < len(r.Blocks) && r.Blocks[l].Broken }
 	// vote outputs the mutant spends while they are locked
 	lockedOuts := map[int]bool{}
-	if r.Mutant >= 0 && (r.Kind == "spend-locked" || r.Kind == "relock") {
+	if r.Mutant >= 0 && (r.Kind == "spend-locked" || r.Kind == "spend-locked-edge" || r.Kind == "relock") {
 		for _, t := range r.Blocks[r.Mutant].Txs {
 			for _, sp := range t.Spends {
 				if sp[1] == 2 {
